@@ -314,7 +314,7 @@ def width_groups(prog):
             t = set(ties[op['src']]) | {op['name']}
         elif k in ('act', 'pool', 'bn', 'flat', 'squeeze'):
             t = set(ties[op['src']])
-        elif k == 'add' or (k == 'cat' and op['dim'] != 1):
+        elif k == 'add' or (k == 'cat' and op.get('axis', op['dim']) != 1):
             t = set()
             for s in op['srcs']:
                 t |= ties[s]
@@ -362,7 +362,7 @@ def tensor_origins(prog):
             o = 'cat' if 'cat' in os_ else ('fixed' if 'fixed' in os_ else
                                             ('input' if 'input' in os_ else 'mixed'))
         elif k == 'cat':
-            o = 'cat' if op['dim'] == 1 else 'mixed'
+            o = 'cat' if op.get('axis', op['dim']) == 1 else 'mixed'
         org[op['out']] = o
     return org
 
@@ -415,7 +415,7 @@ def r_alive(prog, layer_masks, fixed_layers=(), shapes=None, one_to_one_is_dw=Fa
                 n *= x
             a = [v for v in alive[op['src']] for _ in range(n)]
             t = set(taint[op['src']])
-        elif k == 'add' or (k == 'cat' and op['dim'] != 1):
+        elif k == 'add' or (k == 'cat' and op.get('axis', op['dim']) != 1):
             vs = [alive[s_] for s_ in op['srcs']]
             t = set()
             for s_ in op['srcs']:
